@@ -167,9 +167,7 @@ Definition keyed_probe (p : probe) : probe :=
   {| p_action := p_action p; p_args := p_args p; p_state := code_state (p_state p); p_app := p_app p;
      p_order := p_order p; p_uorder := p_uorder p; p_succ := p_succ p |}.
 
-Definition keyed_probe_verdicts (w : world) (p : probe) : list verdict :=
-  let md := model_domain w in
-  let sd := spec_domain w in
+Definition keyed_probe_verdicts (w : world) (md : result mdomain) (sd : option sdomain) (p : probe) : list verdict :=
   let m_app := match md with Ok d => model_app w d (keyed_probe p) | Err _ => Raised end in
   let ok_app :=
     match sd with
@@ -191,7 +189,10 @@ Definition keyed_probe_verdicts (w : world) (p : probe) : list verdict :=
 Definition judge_keyed_world (w : world) : list verdict :=
   match w_parsed w with
   | Raised => [world_verdict w]
-  | Returned _ => world_verdict w :: flat_map (keyed_probe_verdicts w) (w_probes w)
+  | Returned _ =>
+      let md := model_domain w in
+      let sd := spec_domain w in
+      world_verdict w :: flat_map (keyed_probe_verdicts w md sd) (w_probes w)
   end.
 
 Definition explain_keyed (w : world) :=
@@ -200,16 +201,22 @@ Definition explain_keyed (w : world) :=
                  match spec_domain w with Some d => spec_answer w d p | None => None end))
       (w_probes w).
 
-(* ---------- wave 3: generated worlds whose probes were answered by Operators built with problem_objects=None ---------- *)
-Definition noobj_probe_verdicts (w : world) (p : probe) : list verdict :=
-  [ judge_probe true w (model_domain w) (spec_domain w) p;
-    {| v_agree := true; v_ok := true; v_known := false |} ].          (* the successor is C03's; keeps the unit layout of judge_world *)
+(* ---------- wave 3: worlds judged for C02 -- the domain is read ONCE per world (Corr.Core.probe_verdicts reads it again for every
+   probe and also computes the successor, which is C03's subject and is not looked at by this check); the unit layout of
+   Corr.Core.judge_world is kept: one verdict for the world, then (applicability, placeholder) per probe.
+   [noobj]: the probes were answered by Operators built with problem_objects=None. ---------- *)
+Definition placeholder : verdict := {| v_agree := true; v_ok := true; v_known := false |}.
 
-Definition judge_noobj_world (w : world) : list verdict :=
+Definition judge_world_app (noobj : bool) (w : world) : list verdict :=
   match w_parsed w with
   | Raised => [world_verdict w]
-  | Returned _ => world_verdict w :: flat_map (noobj_probe_verdicts w) (w_probes w)
+  | Returned _ =>
+      let md := model_domain w in
+      let sd := spec_domain w in
+      world_verdict w :: flat_map (fun p => [judge_probe noobj w md sd p; placeholder]) (w_probes w)
   end.
+
+Definition judge_noobj_world (w : world) : list verdict := judge_world_app true w.
 
 Definition explain_noobj (w : world) :=
   map (fun p => (p_action p, p_args p,
@@ -221,7 +228,7 @@ Definition explain_noobj (w : world) :=
 Inductive anycase := AW (w : world) | AS (c : scase) | AK (w : world) | AN (w : world).
 Definition run_any (l : list anycase) : string :=
   t2s (map verdict_char (flat_map (fun a => match a with
-                                            | AW w => judge_world w
+                                            | AW w => judge_world_app false w
                                             | AS c => judge_scase c
                                             | AK w => judge_keyed_world w
                                             | AN w => judge_noobj_world w
